@@ -33,6 +33,7 @@ import (
 	"sync"
 	"time"
 
+	mysqldrv "github.com/go-sql-driver/mysql"
 	"github.com/pinealctx/neptune/store/gormx"
 	"github.com/pinealctx/neptune/ulog"
 	"go.uber.org/zap/zapcore"
@@ -90,11 +91,15 @@ const (
 var CtxModes = []string{CtxNone, CtxLive, CtxCancelled, CtxDeadline, CtxStep}
 
 type Case struct {
-	Backend      string `json:"backend"` // "pool" | "sqldrv"
-	Steps        []Step `json:"steps"`   // the fnList handed to Transact
-	Ctx          string `json:"ctx,omitempty"`
-	CancelAt     int    `json:"cancel_at,omitempty"` // Ctx "step": number of the cancelling leaf
-	BeginFail    bool   `json:"begin_fail"`
+	Backend   string `json:"backend"` // "pool" | "sqldrv"
+	Steps     []Step `json:"steps"`   // the fnList handed to Transact
+	Ctx       string `json:"ctx,omitempty"`
+	CancelAt  int    `json:"cancel_at,omitempty"` // Ctx "step": number of the cancelling leaf
+	BeginFail bool   `json:"begin_fail"`
+	// BeginErr: what a failing begin reports - "" an injected error value, "invalidconn" the MySQL driver's
+	// ErrInvalidConn (the one a dropped connection produces). BeginOnce: only the first begin attempt fails.
+	BeginErr     string `json:"begin_err,omitempty"`
+	BeginOnce    bool   `json:"begin_once,omitempty"`
 	CommitFail   bool   `json:"commit_fail"`
 	RollbackFail bool   `json:"rollback_fail"`
 }
@@ -116,6 +121,14 @@ type txError struct{ Op string }
 
 func (e txError) Error() string { return "injected " + e.Op + " failure" }
 
+// beginError is the error a failing begin reports.
+func beginError(kind string) error {
+	if kind == "invalidconn" {
+		return mysqldrv.ErrInvalidConn
+	}
+	return txError{"begin"}
+}
+
 type panicStruct struct {
 	Tok string
 	N   int
@@ -126,6 +139,9 @@ type panicStruct struct {
 
 type faults struct {
 	begin, commit, rollback bool
+	beginErr                error // what a failing begin returns
+	beginOnce               bool  // only the first attempt fails
+	beginTries              int
 	exec                    map[string]int // query -> leaf index whose Exec fails
 }
 
@@ -163,9 +179,13 @@ func (l *eventLog) has(ev string) bool {
 func (l *eventLog) finish() { l.once.Do(func() { close(l.finished) }) }
 
 func (l *eventLog) begin() error {
-	if l.f.begin {
+	l.mu.Lock()
+	l.f.beginTries++
+	fail := l.f.begin && (!l.f.beginOnce || l.f.beginTries == 1)
+	l.mu.Unlock()
+	if fail {
 		l.add("Begin!fail")
-		return txError{"begin"}
+		return l.f.beginErr
 	}
 	l.add("Begin")
 	return nil
@@ -481,7 +501,8 @@ func Exec(c Case) *vkit.Result {
 	var leaves []leaf
 	leaves = flatten(c.Steps, leaves, &res.Skipped)
 	log := &eventLog{finished: make(chan struct{}),
-		f: faults{begin: c.BeginFail, commit: c.CommitFail, rollback: c.RollbackFail, exec: map[string]int{}}}
+		f: faults{begin: c.BeginFail, commit: c.CommitFail, rollback: c.RollbackFail, exec: map[string]int{},
+			beginErr: beginError(c.BeginErr), beginOnce: c.BeginOnce}}
 	for i, l := range leaves {
 		if l.kind == KExecFail {
 			log.f.exec[fmt.Sprintf("STEP %d", i)] = i
@@ -750,7 +771,7 @@ func Exec(c Case) *vkit.Result {
 		if len(finishes) != 0 {
 			return res.Failf("begin-fail/finish", "a transaction that never began was finished%s", show())
 		}
-		if len(begins) == 1 && !errors.Is(got, txError{"begin"}) {
+		if len(begins) == 1 && !errors.Is(got, beginError(c.BeginErr)) {
 			return res.Failf("begin-fail/result", "result is not the begin error%s", show())
 		}
 		if got == nil {
@@ -1003,6 +1024,12 @@ func enumCases(maxN int, withCtx bool) []Case {
 					for f := 0; f < 8; f++ {
 						out = append(out, Case{Backend: be, Steps: steps, Ctx: m.mode, CancelAt: m.at,
 							BeginFail: f&1 != 0, CommitFail: f&2 != 0, RollbackFail: f&4 != 0})
+						if f == 1 && m.mode == "" {
+							// a begin that fails the way a dropped connection does, and one that would work at a second attempt
+							out = append(out, Case{Backend: be, Steps: steps, BeginFail: true, BeginErr: "invalidconn"},
+								Case{Backend: be, Steps: steps, BeginFail: true, BeginErr: "invalidconn", BeginOnce: true},
+								Case{Backend: be, Steps: steps, BeginFail: true, BeginOnce: true})
+						}
 					}
 				}
 			}
@@ -1120,6 +1147,10 @@ func Gen(t *rapid.T) Case {
 		}
 	}
 	c.BeginFail = rapid.IntRange(0, 11).Draw(t, "beginFail") == 11
+	if c.BeginFail {
+		c.BeginErr = rapid.SampledFrom([]string{"", "invalidconn"}).Draw(t, "beginErr")
+		c.BeginOnce = rapid.Bool().Draw(t, "beginOnce")
+	}
 	c.CommitFail = rapid.IntRange(0, 2).Draw(t, "commitFail") == 2
 	c.RollbackFail = rapid.IntRange(0, 2).Draw(t, "rollbackFail") == 2
 	return c
